@@ -368,20 +368,30 @@ class Reason:
         return False
 
     # ---- orderings
-    def lower(self, form):
-        """replace atoms that have a GE invariant by their lower bound where the coefficient is positive"""
+    def lower(self, form, depth=8):
+        """replace atoms that have a GE invariant by their lower bound where the coefficient is positive (to the given
+        nesting depth: lowering a bound further can destroy a cancellation, see lower_variants)"""
         out = Affine(k=form.k)
         for a, c in form.c.items():
             lb = None
-            if c > 0:
+            if c > 0 and depth > 0:
                 for atom, pol in self.f.order:
                     if atom[0] == "GE" and pol is True and atom[1] == a:
                         lb = atom[2]
             if lb is not None:
-                out = out.add(self.lower(affine(lb)), c)
+                out = out.add(self.lower(affine(lb), depth - 1), c)
             else:
                 out = out.add(Affine({a: c}))
         return out
+
+    def lower_variants(self, form):
+        """the form lowered to increasing depths: i >= pos + 14 and pos >= 12 prove i - pos >= 14 only at depth 1"""
+        seen = []
+        for dpt in (1, 2, 8):
+            v = self.lower(form, dpt)
+            if not any(v.c == w.c and v.k == w.k for w in seen):
+                seen.append(v)
+        return seen
 
     def le(self, a, b):
         """a <= b ?"""
@@ -389,9 +399,9 @@ class Reason:
             return True, "dominating fact"
         ls = linsys_from_facts(self.f)
         d = ls.reduce(affine(b).add(affine(a), -1))
-        d2 = self.lower(d)
-        if all(c >= 0 for c in d2.c.values()) and d2.k >= 0 and not any(_signed_atom(x) for x in d2.c):
-            return True, "difference is a sum of non-negative terms"
+        for d2 in self.lower_variants(d):
+            if all(c >= 0 for c in d2.c.values()) and d2.k >= 0 and not any(_signed_atom(x) for x in d2.c):
+                return True, "difference is a sum of non-negative terms"
         # integers: x < b  =>  x + 1 <= b
         if isinstance(a, tuple) and a[0] == "bin" and a[1] == "Add":
             for x, k in ((a[2], a[3]), (a[3], a[2])):
@@ -405,6 +415,12 @@ class Reason:
                         tx, tb = pat_text(fx[1]), pat_text(fb[1])
                         if tx is not None and tb is not None and len(tx) == 1 and len(tb) == 1 and tx != tb:
                             return True, "positions of distinct characters"
+        # a string known to start / end with a literal is at least as long as the literal
+        if is_int(a) and isinstance(b, tuple) and b[0] == "strlen":
+            sb = norm_str(b[1])
+            for st, p in list(self.starts_with_facts()) + list(self.ends_with_facts()):
+                if st == sb and (pat_len(p) or 0) >= a[1]:
+                    return True, "at least as long as its literal prefix/suffix"
         # prefix literal of k bytes and a 1-byte suffix pattern the literal does not end with: k <= len - 1
         if is_int(a) and isinstance(b, tuple) and b[0] == "bin" and b[1] == "Sub" and b[3] == Int(1) and isinstance(b[2], tuple) and b[2][0] == "strlen":
             s = norm_str(b[2][1])
